@@ -129,7 +129,7 @@ TWINS = [
     ('unit-wrong-norm', 'C14', 'base/quaternions.py', '    return q / nm', '    return q / (nm * nm)', 'R16', 'unit'),
     # ---- C18
     ('revolute-sign', 'C18', 'twist.py', '        v = -np.cross(w, base.getvector(q, 3))', '        v = np.cross(w, base.getvector(q, 3))', 'R16', 'Revolute'),
-    ('exp-nounit', 'C18', 'twist.py', "        else:\n            theta = base.getunit(theta, units)\n\n        if base.isscalar(theta):\n            # theta is a scalar\n            return SE3(base.trexp(self.S * theta))", "        elif base.isscalar(theta):\n            theta = base.getunit(theta, units)\n\n        if base.isscalar(theta):\n            # theta is a scalar\n            return SE3(base.trexp(self.S * theta))", 'R10u', 'Twist3.exp'),
+    ('exp-nounit', 'C18', 'twist.py', "        else:\n            theta = base.getunit(theta, units)\n\n        if base.isscalar(theta):\n            # theta is a scalar\n            return SE3([base.trexp(S * theta) for S in self.data])", "        elif base.isscalar(theta):\n            theta = base.getunit(theta, units)\n\n        if base.isscalar(theta):\n            # theta is a scalar\n            return SE3([base.trexp(S * theta) for S in self.data])", 'R10u', 'Twist3.exp'),
     ('pitch-slots', 'C18', 'twist.py', '        return np.dot(self.w, self.v)', '        return np.dot(self.w, self.w)', 'R16', 'pitch'),
     ('twist-w-slot', 'C18', 'twist.py', '        return self.data[0][3:6]', '        return self.data[0][2:5]', 'R16', 'Twist3.w'),
     ('prismatic-nounit', 'C18', 'twist.py', "        w = np.r_[0, 0, 0]\n        v = base.unitvec(base.getvector(a, 3))", "        w = np.r_[0, 0, 0]\n        v = base.getvector(a, 3)", 'R16', 'Prismatic'),
@@ -147,6 +147,22 @@ TWINS = [
     ('inertia-block', 'C20', 'spatialvector.py', '                    [m * C,         I + m * C @ C.T]', '                    [m * C,         I + m * C @ C]', 'R16', 'SpatialInertia.__init__'),
     ('sv-add-noguard', 'C20', 'spatialvector.py', "        if type(left) != type(right):\n            raise TypeError('can only add spatial vectors of same type')\n        if len(left) != len(right):\n            raise ValueError('can only add equal length arrays of spatial vectors')\n\n        return left.__class__([x + y for x, y in zip(left.data, right.data)])", "        if len(left) != len(right):\n            raise ValueError('can only add equal length arrays of spatial vectors')\n\n        return left.__class__([x + y for x, y in zip(left.data, right.data)])", 'R16', '__add__'),
     ('sv-ctor-asarray', 'C20', 'spatialvector.py', '        elif base.ismatrix(value, (6, None)):\n            self.data = [x for x in value.T]', '        elif base.ismatrix(np.asarray(value), (6, None)):\n            self.data = [x for x in np.asarray(value).T]', 'R16', 'SpatialVector.__init__'),
+    # ---- rules added after seeded round b
+    ('pow-transpose', 'C01', 'super_pose.py', 'return self.__class__([np.linalg.matrix_power(x, n) for x in self.data], check=False)', 'return self.__class__([np.linalg.matrix_power(x.T, -n) if n < 0 else np.linalg.matrix_power(x, n) for x in self.data], check=False)', 'R15c', '__pow__'),
+    ('se3-inv-transpose', 'C01', 'pose3d.py', '            return SE3(base.trinv(self.A), check=False)', '            return SE3(self.A.T, check=False)', 'R15c', 'SE3.inv'),
+    ('trlog-diag-c02', 'C02', 'base/transforms3d.py', '            skw = (R - R.T) / 2 / math.sin(theta)', '            skw = base.skew(np.sqrt(np.abs(np.diag(R) + 1) / 2)) * math.sin(theta) / math.sin(theta)', 'R17', 'trlog'),
+    ('udq-dual-negated', 'C04', 'DualQuaternion.py', '        elif real is not None and dual is not None:\n            self.real = real  # quaternion, real part\n            self.dual = dual  # quaternion, dual part\n        elif dual is None and isinstance(real, SE3):', '        elif real is not None and dual is not None:\n            if dual.s < 0:\n                dual = -dual\n            self.real = real  # quaternion, real part\n            self.dual = dual  # quaternion, dual part\n        elif dual is None and isinstance(real, SE3):', 'R13', 'UnitDualQuaternion.__init__'),
+    ('uq-angvec-vector-part', 'C05', 'quaternion.py', '        return base.tr2angvec(self.R, unit=unit)', '        return (2 * math.acos(abs(self.s)) * (180 / math.pi if unit == "deg" else 1), base.unitvec(self.v))', 'R16s', 'angvec'),
+    ('uq-rpy-from-vec', 'C05', 'quaternion.py', '            return base.tr2rpy(self.R, unit=unit, order=order)', '            return base.tr2rpy(base.rotx(self.s), unit=unit, order=order)', 'R16s', 'UnitQuaternion.rpy'),
+    ('mul-vector-left', 'C06', 'super_pose.py', '                    return left.A @ v', '                    return (v.T @ left.A).T', 'R16', '__mul__'),
+    ('twist3-rmul-raw', 'C09', 'twist.py', '            return Twist3(right.binop(left, lambda x, y: x * y))', '            return Twist3(right.S * left)', 'R8', 'Twist3.__rmul__'),
+    ('twist3-exp-scalar-S', 'C09', 'twist.py', '            return SE3([base.trexp(S * theta) for S in self.data])', '            return SE3(base.trexp(self.S * theta))', 'R8', 'Twist3.exp'),
+    ('arghandler-share-list', 'C10', 'smuserlist.py', '            self.data = copy.copy(arg.data)', '            self.data = arg.data', 'R5', 'arghandler'),
+    ('qlog-sign-blind', 'C12', 'quaternion.py', '        v = math.acos(self.s / norm) * base.unitvec(self.v)', '        v = math.atan2(base.norm(self.v), abs(self.s)) * base.unitvec(self.v)', 'R17', 'Quaternion.log'),
+    ('simplify-skip-last-col', 'C16', 'super_pose.py', '        return self.__class__([vf(x) for x in self.data], check=False)', '        def part(x):\n            y = x.copy()\n            y[:, :-1] = vf(x[:, :-1])\n            return y\n        return self.__class__([part(x) for x in self.data], check=False)', 'R18', 'simplify'),
+    ('contains-recursion-tol', 'C19', 'geom3d.py', '            return [np.linalg.norm(np.cross(_ - self.pp, self.w)) < tol for _ in x.T]', '            return [self.contains(_) for _ in x.T]', 'R10r', 'Plucker.contains'),
+    ('contains-columns-tol', 'C19', 'geom3d.py', '            return [np.linalg.norm(np.cross(_ - self.pp, self.w)) < tol for _ in x.T]', '            return [np.linalg.norm(np.cross(_ - self.pp, self.w)) < 50*_eps for _ in x.T]', 'R16', 'Plucker.contains'),
+    ('contains-rows', 'C19', 'geom3d.py', '            return [np.linalg.norm(np.cross(_ - self.pp, self.w)) < tol for _ in x.T]', '            return [np.linalg.norm(np.cross(_ - self.pp, self.w)) < tol for _ in x]', 'R16', 'Plucker.contains'),
 ]
 
 
@@ -200,7 +216,7 @@ def main(pid=None):
     bad = 0
     for (tid, p, st, msg) in res:
         print('%-8s %-4s %-28s %s' % (st, p, tid, msg if st != 'fired' else msg[:110]))
-        if st == 'MISSED':
+        if st in ('MISSED', 'skipped'):
             bad += 1
     print('selftest: %d twins, %d fired, %d skipped, %d missed' % (
         len(res), sum(1 for r in res if r[2] == 'fired'), sum(1 for r in res if r[2] == 'skipped'), bad))
